@@ -4,7 +4,7 @@ from core import Case, canon
 import score_gen
 
 PROP = "C09"
-LEAN_MODULES = ["DrxProps.C09"]
+LEAN_MODULES = ["DrxProps.C09", "DrxProps.C0809"]
 FAMILIES = ["score"]
 RULE = ("frame tables (lists of frame dicts shaped as parse_vwsc_data returns them: main / palette / one cell per channel) are generated "
         "directly from per-channel stories (sprite appears, changes ONE of the 12 compared attributes, vanishes for one frame, returns "
@@ -12,7 +12,9 @@ RULE = ("frame tables (lists of frame dicts shaped as parse_vwsc_data returns th
         "(1) an independent Python checker evaluates every clause of the property on the real output (cover by exactly one span with "
         "equal attributes, no span over an empty cell, ordered + disjoint, maximal, rectangle, events at exactly the carrying frames, "
         "sounds merged iff consecutive and equal); (2) the output must equal the run-length encoding computed by grouping. Stage C: the "
-        "Lean model of vwsc_to_score on the same table. Ragged tables (frames with missing cells) are compared model-vs-implementation only.")
+        "Lean model of vwsc_to_score on the same table. Ragged tables (frames with missing cells) are compared model-vs-implementation only. "
+        "A `pipeline` stream feeds vwsc_to_score with the output of the REAL parse_vwsc_file_data on generated score files (C08 spec objects, "
+        "random encodings, optional wrapper); expected = run-length view of the fields of the spec's buffers (theorems DrxProps/C0809.lean).")
 TRUSTED = ["harness/c09.py clause checker and run-length expectation (Python)", "correspondence is sampled (generator quality bounds it)",
            "math.ceil(h - w/2) is modelled as h - floor(w/2): exact for operands below 2^52 (generated values are 16-bit)"]
 ASSUMPTIONS = ["all frames of a decoded table have the same channel count (parse_vwsc_data guarantees it; C08 model)",
@@ -367,6 +369,46 @@ def ragged_cases(rng, n):
     return out
 
 
+def _table_of_decoded(fr):
+    """expected decoded frames (harness/c08.py read_frame) -> this module's table form"""
+    out = []
+    for f in fr:
+        out.append(dict(main=(f["main"] or None), palette=(f["palette"]["palette_id"] if f["palette"] else None),
+                        score=[(c if c else None) for c in f["score"]]))
+    return out
+
+
+def pipeline_case(rng):
+    """bytes -> frames -> timeline through the REAL parse_vwsc_file_data and vwsc_to_score: a generated score file (C08 spec object:
+    layout, channels, buffer sequence with sprites appearing / changing one field / vanishing / returning, a random encoding with
+    `same` records, overlapping and redundant ranges, optional wrapper); expected = run-length view of the fields of the buffers"""
+    import c08
+    lay = rng.choice(["d4", "d5"])
+    cc = rng.choice([3, 4, 5, 8, rng.randrange(3, 20)])
+    n = cc * c08.FS[lay]
+    nf = rng.choice([1, 2, 3, 5, 8, rng.randrange(1, 25)])
+    bufs, cur = [], c08.rand_buffer(rng, lay, cc)
+    for _ in range(nf):
+        bufs.append(cur)
+        r = rng.random()
+        if r < 0.45:
+            pass                                                   # unchanged frame: spans and sounds must extend
+        elif r < 0.6 and cc > 2:
+            b = bytearray(cur); c = rng.randrange(2, cc); b[c * c08.FS[lay]:(c + 1) * c08.FS[lay]] = bytes(c08.FS[lay]); cur = bytes(b)
+        else:
+            cur = c08.mutate_buffer(rng, lay, cc, cur)
+    recs = c08.encode_frames(rng, n, bufs, rng.choice(["min", "random", "mixed", "bytes", "full"]))
+    if rng.random() < 0.15:
+        recs = ["S"] + recs; bufs = [bytes(n)] + bufs
+    spec = dict(lay=lay, cc=cc, fc=len(recs), u1=0, u2=0)
+    w = c08.fix_wrapper(c08.rand_wrapper(rng))
+    data = c08.file_bytes(spec, recs, w)
+    frames = _table_of_decoded([c08.read_frame(lay, b) for b in bufs])
+    t = table_txt(frames)
+    spec.update(nframes=len(bufs), wrapped=w is not None, table=t if len(t) < 20000 else None)
+    return Case(kind="pipeline", spec=spec, lines=[f"score pipeline {c08.hx(data)}"], expect=[canon(rle_expected(frames))])
+
+
 def cases(rng, tier):
     n_tab, n_snd, n_rag = dict(quick=(2500, 400, 200), thorough=(50000, 4000, 2000), search=(20000, 2000, 0))[tier]
     out = one_attr_cases(rng)
@@ -377,6 +419,7 @@ def cases(rng, tier):
     out += sound_cases(rng, n_snd)
     out += [table_case(rng) for _ in range(n_tab)]
     out += ragged_cases(rng, n_rag)
+    out += [pipeline_case(rng) for _ in range(dict(quick=500, thorough=8000, search=3000)[tier])]
     return out
 
 
@@ -396,7 +439,13 @@ def impl(case):
     out = []
     for line in case["lines"]:
         t = line.split()
-        if t[1] == "toscore":
+        if t[1] == "pipeline":
+            try:
+                from drxtract.vwsc.vwsc import parse_vwsc_file_data, vwsc_to_score
+                out.append(canon(vwsc_to_score(parse_vwsc_file_data(bytes.fromhex(t[2])))))
+            except Exception:
+                out.append(canon("error"))
+        elif t[1] == "toscore":
             try:
                 out.append(canon(run_real(t[2])))
             except Exception:
@@ -420,6 +469,12 @@ def oracle(case, io):
     if case["kind"] == "ragged":
         return None
     import json
+    if case["kind"] == "pipeline":
+        if io[0] == '"error"':
+            return "the real pipeline raised on a valid score file"
+        if case["spec"].get("table"):
+            return check_clauses(_frames_of_text(case["spec"]["table"]), json.loads(io[0]))
+        return None
     for line, o in zip(case["lines"], io):
         if o == '"error"':
             return "vwsc_to_score raised on a rectangular frame table"
